@@ -16,6 +16,7 @@ Next == FALSE /\ UNCHANGED x
 
 Out == SanV(Variant, x)
 MeetsContract == OutputOk(Out)
+FastAgrees == Variant = "code" => SanV(Variant, x) = SanRec(x)
 Idempotent == SanV(Variant, Out) = Out
 \* documented examples survive: a clean name is left alone
 CleanKept == (x # <<>> /\ \A i \in 1..Len(x) : x[i] \in {97, 45} \/ (x[i] = 46 /\ i > 1 /\ i < Len(x))) => Out = x
